@@ -13,6 +13,7 @@ package getopt
 import (
 	"fmt"
 	"strings"
+	"unicode/utf8"
 
 	"src.elv.sh/pkg/errutil"
 )
@@ -244,13 +245,15 @@ func parseShort(s string, specs []*OptionSpec) ([]*Option, bool) {
 	var opts []*Option
 	var needArg bool
 	for i, r := range s {
+		// The width of r in s; differs from len(string(r)) for invalid UTF-8.
+		_, size := utf8.DecodeRuneInString(s[i:])
 		opt := findShort(r, specs)
 		if opt != nil {
 			if opt.Arity == NoArgument {
 				opts = append(opts, &Option{Spec: opt})
 				continue
 			} else {
-				parsed := &Option{Spec: opt, Argument: s[i+len(string(r)):]}
+				parsed := &Option{Spec: opt, Argument: s[i+size:]}
 				opts = append(opts, parsed)
 				needArg = parsed.Argument == "" && opt.Arity == RequiredArgument
 				break
@@ -259,7 +262,7 @@ func parseShort(s string, specs []*OptionSpec) ([]*Option, bool) {
 		// Unknown option, treat as taking an optional argument
 		parsed := &Option{
 			Spec: &OptionSpec{r, "", OptionalArgument}, Unknown: true,
-			Argument: s[i+len(string(r)):]}
+			Argument: s[i+size:]}
 		opts = append(opts, parsed)
 		break
 	}
@@ -268,7 +271,8 @@ func parseShort(s string, specs []*OptionSpec) ([]*Option, bool) {
 
 func findShort(r rune, specs []*OptionSpec) *OptionSpec {
 	for _, opt := range specs {
-		if r == opt.Short {
+		// Short == 0 means the option has no short form.
+		if opt.Short != 0 && r == opt.Short {
 			return opt
 		}
 	}
@@ -280,6 +284,10 @@ func findShort(r rune, specs []*OptionSpec) *OptionSpec {
 func parseLong(s string, specs []*OptionSpec) (*Option, bool) {
 	eq := strings.IndexRune(s, '=')
 	for _, opt := range specs {
+		if opt.Long == "" {
+			// The option has no long form.
+			continue
+		}
 		if s == opt.Long {
 			return &Option{Spec: opt, Long: true}, opt.Arity == RequiredArgument
 		} else if eq != -1 && s[:eq] == opt.Long {
